@@ -15,7 +15,7 @@ import random
 
 from simkit.driver import Check, base_result
 from ref import codec as C
-from checks.worlda import (WorldA, draw_knobs, draw_sched, draw_stalls, draw_func_stalls, install_func_stalls, NODE_HOST, NODE_REALM,
+from checks.worlda import (WorldA, bystander_for, bystander_cost, draw_knobs, draw_sched, draw_stalls, draw_func_stalls, install_func_stalls, NODE_HOST, NODE_REALM,
                            PEER_HOST, PEER_REALM)
 
 TAG = 99999
@@ -97,7 +97,7 @@ class C05(Check):
             stalls = []
         return {"mode": rng.choice(["CLIENT", "SERVER"]), "subs": subs, "inbound": inbound,
                 "write_stalls": stalls, "thread_stalls": draw_stalls(rng, span=600),
-                "func_stalls": func_stalls,
+                "func_stalls": func_stalls, "bystander": bystander_for(index),
                 "sched": draw_sched(rng), "knobs": knobs, "net": net,
                 "watchdog": 30, "horizon": 120.0}
 
@@ -174,11 +174,13 @@ class C05(Check):
         nmsgs = sum(op["n"] for s in scn["subs"] for op in s["ops"])
         D = 3.0 + 6 * nmsgs * tick + 2 * knobs["TRACKING_SOCKET_EVENTS_TIMEOUT"] + \
             nmsgs * 30000 * sim.quantum + sum(s["dur"] for s in scn["write_stalls"]) + \
-            sum(s["dur"] for s in scn.get("thread_stalls", [])) + sum(s["dur"] for s in scn.get("func_stalls", []))
+            sum(s["dur"] for s in scn.get("thread_stalls", [])) + sum(s["dur"] for s in scn.get("func_stalls", [])) + \
+            bystander_cost(scn, sim.quantum)
 
         def main(sim):
             from bromelia.base import DiameterRequest, DiameterAnswer, DiameterAVP
             from bromelia.avps import SessionIdAVP, OriginHostAVP, OriginRealmAVP, DestinationRealmAVP, ResultCodeAVP
+            w.maybe_bystander()
             w.start_node()
             if not w.wait_state(("I-Open", "R-Open"), 20.0):
                 return
